@@ -448,3 +448,59 @@ func permutation(r *Rng, n int) []int {
 	}
 	return p
 }
+
+// authWarmOracle: EIP-7702 adds the authority of a tuple to accessed_addresses as soon as the chain id
+// and nonce bound are fine and the signature recovers — before the code and nonce checks, and whether or
+// not the tuple is finally applied.  Hence listing such an authority in the transaction's access list
+// (with 2400 more gas) changes nothing but the intrinsic charge: the same outcome and logs, and the gas
+// used grows by 2400 minus at most 2400/5 (the EIP-3529 cap moves with the gas used).  This is checked on
+// the implementation alone, one authority at a time.
+func authWarmOracle(t bcase, o blockOut) []string {
+	if o.blockErr != 0 || o.panicked != "" {
+		return nil
+	}
+	rejected := map[int]bool{}
+	for _, r := range o.rejected {
+		rejected[int(r[0])] = true
+	}
+	var fails []string
+	ri := 0
+	for i, x := range t.txs {
+		if rejected[i] {
+			continue
+		}
+		mine := ri
+		ri++
+		if x.typ != 4 || len(x.data) != 0 || mine >= len(o.receipts) {
+			continue
+		}
+		seen := map[string]bool{}
+		for _, e := range x.al {
+			seen[e.addr.String()] = true
+		}
+		for _, a := range x.auths {
+			if a.authority == nil || a.chain.Cmp(big.NewInt(1)) > 0 || a.nonce == ^uint64(0) || seen[a.authority.String()] {
+				continue
+			}
+			seen[a.authority.String()] = true
+			t2 := t
+			t2.txs = append([]txc{}, t.txs...)
+			y := x
+			y.al = append(append([]alEntry{}, x.al...), alEntry{addr: a.authority})
+			y.gas += 2400
+			t2.txs[i] = y
+			o2 := runBlockAt(t2, nil, false, t.fork)
+			if o2.panicked != "" || o2.blockErr != 0 || len(o2.rejected) != len(o.rejected) || len(o2.receipts) != len(o.receipts) {
+				continue // the heavier transaction no longer fits (block gas limit, balance, EIP-7825 cap)
+			}
+			ra, rb := o.receipts[mine], o2.receipts[mine]
+			if ra.status != rb.status || String(encLogs(ra.logs)) != String(encLogs(rb.logs)) ||
+				rb.gasUsed > ra.gasUsed+2400 || rb.gasUsed+480 < ra.gasUsed+2400 {
+				fails = append(fails, fmt.Sprintf("EIP-7702: transaction %d: with authority %x (tuple with a recoverable signature) also in the access list the gas used goes from %d to %d (status %d -> %d): the authority was not in accessed_addresses",
+					i, a.authority, ra.gasUsed, rb.gasUsed, ra.status, rb.status))
+				break
+			}
+		}
+	}
+	return fails
+}
